@@ -170,6 +170,10 @@ func buildLayout(sc *Scn, runDirPrefix string) intoto.Layout {
 			s.ExpectedProducts = append(s.ExpectedProducts, []string{"DELETE", markerize("src/b.c", sc.Params)})
 		}
 		s.ExpectedProducts = append(s.ExpectedProducts, []string{"MATCH", "*", "WITH", "MATERIALS", "FROM", st.Name}, []string{"DISALLOW", "*"})
+		if sc.Defect == "history-whitespace-rule" {
+			s.ExpectedMaterials = append([][]string{{"ALLOW", "release notes "}, {"DISALLOW", " draft\t"}}, s.ExpectedMaterials...)
+			s.ExpectedProducts = append([][]string{{"ALLOW", "  spaced out  "}}, s.ExpectedProducts...)
+		}
 		if sc.Defect == "case-variant-rule-earlier" {
 			// harmless rules (no such files) that differ from the inspection's DISALLOW only in letter case
 			up := strings.ToUpper(runDirPrefix)
@@ -530,7 +534,7 @@ var defects = map[string][]string{
 	"c06": {"sub-expired", "sub-undated", "sub-rfc3339-offset", "none", "expired-long", "expired-2s", "future-1h", "garbage", "empty", "rfc3339-offset", "date-only", "year-9999", "fraction", "lowercase"},
 	"c08": {"sub-insp-named-like-first-step", "sub-insp-named-like-last-step", "sub-defective-beside-good-link", "sub-ok", "sub-ok", "sub-badsig", "sub-expired", "sub-missing-link", "sub-rule-violation", "sub-unauthorised", "sub-nested", "sub-nested-defect", "sub-summary-mismatch"},
 	"c10": {"history-same-params", "history-diff-params", "history-no-params", "history-mixed", "mixed-cert-key", "mixed-cert-key", "mixed-cert-key-unsorted", "summary-byproducts", "direct-unclean",
-		"history-multi-alg", "history-multi-alg-mismatch"},
+		"history-multi-alg", "history-multi-alg-mismatch", "history-whitespace-rule"},
 	"c09": {"case-variant-rule-earlier", "product-modified-backslash-decoy", "sha512-chain-product-modified", "escaped-pattern-product-modified", "escaped-pattern-none", "insp-rewrite-same-mtime", "product-all-removed", "require-after-consume", "none", "insp-fail", "insp-fail-255", "insp-missing", "insp-empty", "product-modified", "product-added", "product-removed",
 		"insp-touch-allowed", "insp-touch-disallowed", "three-inspections", "second-fails"},
 }
@@ -851,6 +855,10 @@ func genScenario(r *lib.Rng, focus string, idx int) *Scn {
 			sc.CertStep = i + 1
 			sc.Reps = 24
 			sc.History = []map[string]string{sc.Params, sc.Params}
+		case "history-whitespace-rule":
+			// a (harmless) rule whose pattern carries surrounding blanks: parsing the rules must not rewrite the caller's layout
+			sc.Params = nil
+			sc.History = []map[string]string{nil, nil, nil}
 		case "history-multi-alg", "history-multi-alg-mismatch":
 			// every artifact is recorded with sha256 AND sha512; in the mismatch class one material of the second step
 			// agrees with the first step's product in sha256 but not in sha512: MATCH must not consume it, DISALLOW rejects
